@@ -21,11 +21,21 @@ SCALE = float(os.environ.get('VERIF_TIME_SCALE', '1'))
 
 def exchange(kind, sizes, mode, kill_after=None):
     ctx = billiard.get_context('fork')
-    if kind == 'pipe':
+    if kind in ('pipe', 'pipe_sig'):
         r, w = ctx.Pipe(duplex=False)
+    elif kind == 'socket_dt':
+        # a process-wide default socket timeout (an application's own choice) must not leak into the
+        # connection: both ends block as every other connection does
+        import socket
+        socket.setdefaulttimeout(30)
+        try:
+            r, w = ctx.Pipe(duplex=True)
+        finally:
+            socket.setdefaulttimeout(None)
     else:
         r, w = ctx.Pipe(duplex=True)          # a socket pair
-    p = ctx.Process(target=targets.conn_sender, args=(w, sizes, kill_after is not None))
+    sig = kind.endswith('_sig')
+    p = ctx.Process(target=targets.conn_sender, args=(w, sizes, kill_after is not None, sig))
     p.daemon = True
     p.start()
     w.close()
@@ -34,6 +44,8 @@ def exchange(kind, sizes, mode, kill_after=None):
     killed = False
     for m, n in enumerate(sizes, 1):
         want = payload(m, n)
+        if sig and n > 65536:
+            time.sleep(0.3)                   # the writer blocks inside a big message; signals hit it there
         if kill_after is not None and m == kill_after + 1 and not killed:
             time.sleep(0.4)                   # the sender is blocked inside message m (pipe full)
             os.kill(p.pid, signal.SIGKILL)
@@ -88,6 +100,7 @@ def exchange(kind, sizes, mode, kill_after=None):
     if p.is_alive():
         p.terminate()
     return {'kind': kind, 'mode': mode, 'n': len(sizes), 'kill_after': kill_after or 0,
+            'killed': kill_after is not None,
             'results': results, 'tail': tail}
 
 
@@ -103,6 +116,9 @@ def main():
             res.append(exchange(kind, sizes, mode))
         res.append(exchange(kind, [10, 20, 1048576, 5], 'bytes', kill_after=2))
         res.append(exchange(kind, [1048576, 5], 'mixed', kill_after=0))
+    res.append(exchange('socket_dt', sizes, 'mixed'))
+    for kind in ('pipe_sig', 'socket_sig'):
+        res.append(exchange(kind, [5, 1048576, 0, 300000, 7, 2 * 1048576, 1], 'bytes'))
     with open(out + '.tmp', 'w') as fh:
         json.dump(res, fh)
     os.replace(out + '.tmp', out)
